@@ -92,3 +92,10 @@ N("c10-n-validation-restructured", "C10", SYNC, "Semaphore.__init__",
 N("c10-n-release-guard-spelled-differently", "C10", A, "Semaphore.release",
   "        if self._max_value is not None and self._value == self._max_value:\n            raise ValueError(\"semaphore released too many times\")",
   "        if self._max_value is None:\n            pass\n        elif self._max_value == self._value:\n            raise ValueError(\"semaphore released too many times\")")
+
+# from seeded changes C10/i, C10/j (round 5)
+M("c10-undo-covers-duplicate-acquire", "C10", A, "CapacityLimiter.acquire_on_behalf_of",
+  "        try:\n            self.acquire_on_behalf_of_nowait(borrower)\n        except WouldBlock:",
+  "        try:\n            self.acquire_on_behalf_of_nowait(borrower)\n        except RuntimeError:\n            self.release_on_behalf_of(borrower)\n            raise\n        except WouldBlock:", ["R10-e"])
+M("c10-nan-total-accepted", "C10", A, "CapacityLimiter.total_tokens@setter", "        if not isinstance(value, int) and not math.isinf(value):", "        if not isinstance(value, int) and math.isfinite(value):", ["R10-k"])
+M("c10-adapter-nan-total-accepted", "C10", SYNC, "CapacityLimiterAdapter.total_tokens@setter", "        if not isinstance(value, int) and not math.isinf(value):", "        if not isinstance(value, int) and math.isfinite(value):", ["R10-k"])
